@@ -10,7 +10,9 @@ PROPS["C16"] = dict(
     rule=("One graph generator feeds six subs. EXHAUSTIVE: every labelled simple graph on 1..5 vertices (quick, 1099 graphs per sub) / 1..6 "
           "vertices (thorough, 33867 per sub) plus, for equiv/reduce/breakinto, every labelled 7-vertex graph with non-increasing degree "
           "sequence (16758 graphs, >= 1 labelling of each of the 1044 isomorphism classes), each with ids from a sparse pool (0..10^6), shuffled edge order/orientation, three attribute modes and a "
-          "pseudo-random relabelling derived from the graph index. GENERATED: 1..4 components drawn from chain, ring, star, random tree, fused "
+          "pseudo-random relabelling derived from the graph index. EXHAUSTIVE BY CLASS up to 10 (quick, 1382 graphs per sub) / 12 (thorough) vertices: every rooted tree "
+          "(canonical level sequences; contains every free tree, chain and star), every ring, ring with a tail, pair of rings sharing a vertex, theta graph (fused rings) "
+          "and every disjoint union of two of {isolated vertex, chain, ring, star}. GENERATED: 1..4 components drawn from chain, ring, star, random tree, fused "
           "rings (shared edge), theta graphs (2..4 parallel chains between two junctions, equal lengths allowed), cacti/spiro rings with tails, "
           "ring with tails, complete K2..K6, G(m,p), 2xk ladders, isolated vertices; up to 40 (24 for bfs/single/equiv) vertices growing with "
           "the rapidcheck size; vertex numbering, sparse non-contiguous ids (0..10^6), edge insertion order and orientation shuffled; names from "
@@ -30,5 +32,5 @@ PROPS["C16"] = dict(
         "is not a complete isomorphism invariant and the statement does not claim it)"],
     exhaustive_in="both",
     exhaustive_note="small-scope enumeration complete for labelled graphs up to 5 (quick) / 6 (thorough) vertices and for degree-sorted labelled "
-                    "7-vertex graphs (thorough); the generated part is a sample",
+                    "7-vertex graphs (thorough), and for the named classes (trees, rings, ring+tail, rings sharing a vertex, theta graphs, two-part mixtures) up to 10 / 12 vertices; the generated part is a sample",
 )
